@@ -197,7 +197,14 @@ def make_io(fs):
         p = str(path)
         if p not in fs.files:
             raise S.Raised("FileNotFoundError", p)
-        return {k: S._deepcopy(ev, v) for k, v in fs.files[p].items()}
+        class NpzFile(dict):
+            # numpy's NpzFile: a read-only mapping name -> array that also lists its names in .files and can be closed
+            def close(self):
+                return None
+
+        z = NpzFile({k: S._deepcopy(ev, v) for k, v in fs.files[p].items()})
+        z.files = list(fs.files[p])
+        return z
 
     class TmpDir:
         __yadsa_native__ = True
@@ -410,6 +417,12 @@ def build_output(proj, spec, fs):
     out = ev.call(ev.getattr(runner, "get_result", None), [], {})
     if spec["none"]:
         out.store["FL_bottom"] = None
+    if spec.get("zero_errors"):
+        pts = out.store[spec["obs"][0]]
+        pt = pts[-1] if spec["zero_errors"] == "last" else pts[0]
+        for k_, (v_, e_) in list(pt.attrs["orders"].items()):
+            zero = S.Arr([[0 for _ in row] for row in e_.data]) if e_.data and isinstance(e_.data[0], list) else S.Arr([0 for _ in e_.data])
+            pt.attrs["orders"][k_] = (v_, zero)
     # the result API carries nf: exercise it on one point
     first = out.store[spec["obs"][0]]
     if first:
@@ -535,6 +548,10 @@ def specs(tier):
         elif sv and pto == 0:
             continue
         out.append(dict(obs=obs, process=process, projectile=projectile, fns=fns, nfff=nfff, pto=pto, sv=sv, format=fmt, empty=empty, none=none_))
+    # outputs in which ONE point of the first observable carries exactly vanishing errors (what x = 1, or an order without integrals, gives)
+    # while its other point does not: whatever a writer decides from one point's errors must not be applied to the whole observable
+    for (obs, process, projectile), fmt, which in itertools.product(mixes[:3], ["yaml", "tar"], ["last", "first"]):
+        out.append(dict(obs=obs, process=process, projectile=projectile, fns="ZM-VFNS", nfff=4, pto=1, sv=False, format=fmt, empty=False, none=False, zero_errors=which))
     return out
 
 
@@ -561,7 +578,7 @@ def run(rep, proj, tier):
     n_values = 0
     groups = {}
     for s_, o in zip(sp, outs):
-        label = f"{s_['format']}|{'+'.join(s_['obs'])}|{s_['fns']}|PTO={s_['pto']}|sv={s_['sv']}|empty={s_['empty']}|none={s_['none']}"
+        label = f"{s_['format']}|{'+'.join(s_['obs'])}|{s_['fns']}|PTO={s_['pto']}|sv={s_['sv']}|empty={s_['empty']}|none={s_['none']}" + (f"|{s_['zero_errors']} point without errors" if s_.get("zero_errors") else "")
         if o[0] == "undecided":
             rep.undecided("C15.roundtrip", "", label, o[1])
             continue
